@@ -22,7 +22,7 @@ from xdsl.pattern_rewriter import (
     RewritePattern,
 )
 from xdsl.traits import ConstantLike, Pure
-from xdsl.utils.exceptions import InterpretationError
+from xdsl.utils.exceptions import InterpretationError, VerifyException
 
 
 @dataclass
@@ -59,7 +59,10 @@ class ConstantFoldInterpPattern(RewritePattern):
                 for operand in op.operands
             )
             results = self.interpreter.run_op(op, args)
-        except InterpretationError:
+        except (InterpretationError, AssertionError, ArithmeticError, MemoryError):
+            # The interpreter cannot evaluate the operation on these constants (no
+            # implementation, or a failed precondition such as a zero divisor or a
+            # negative shift amount): leave the operation in place.
             return
 
         new_ops: list[Operation] = []
@@ -77,7 +80,11 @@ class ConstantFoldInterpPattern(RewritePattern):
     def convert_to_attr(self, value: Any, value_type: Attribute) -> Attribute | None:
         match (value, value_type):
             case int(), IntegerType():
-                return IntegerAttr(value, value_type)
+                try:
+                    return IntegerAttr(value, value_type)
+                except (VerifyException, ValueError):
+                    # value outside the range of the type: cannot be materialized
+                    return None
             case _:
                 return None
 
